@@ -30,6 +30,7 @@ fn gate(p: &Partial, t: Tier) -> Result<(), String> {
     super::need(p, "inside-block", 1 << 20)?;
     super::need(p, "outside-every-block", 1 << 20)?;
     super::need(p, "reader-seam", 1000)?;
+    super::need(p, "reg-stable-under-later-frames", 1000)?;
     Ok(())
 }
 
@@ -114,6 +115,65 @@ fn run(ctx: &mut Ctx) {
         }
         a += ctx.nparts as u32;
     }
+    // (b') the registration is decided by the address alone: under -U and -R as well, and whatever
+    // frames of whatever format arrive later (DF18 with every CF value included)
+    {
+        let later = |a: u32| -> Vec<frames::Frame> {
+            let mut v = vec![
+                frames::df4(a, frames::ac13_for_alt(31000)),
+                frames::df5(a, frames::id13_for_squawk(4521)),
+                frames::df17(5, a, frames::me_ident(4, 3, frames::callsign_codes("REG"))),
+                frames::df17(0, a, frames::me_tc31(2)),
+                frames::df20(a, frames::ac13_for_alt(7000), frames::mb_bds17(0xFFFFFF)),
+                frames::df21(a, frames::id13_for_squawk(1000), 0x20_04D3_0C30_C30C),
+                frames::df0(a, 100),
+                frames::df16(a, 100, 0),
+            ];
+            for cf in 0..8 {
+                v.push(frames::df18(cf, a, frames::me_ident(2, 1, frames::callsign_codes("TIS"))));
+                v.push(frames::df18(cf, a, frames::me_airpos(11, 0, 0, frames::ac12_for_alt(5000), 0, (cf & 1) as u32, 93000, 51372)));
+            }
+            v
+        };
+        let mut addrs: Vec<u32> = lk.blocks.iter().flat_map(|b| [b.lo, b.hi]).collect();
+        addrs.extend([0x000001u32, 0x00A000, 0x2FFFFF, 0x900500, 0xFFFFFF]);
+        for (ci, opts) in [&[][..], &["-U"][..], &["-R"][..], &["-U", "-R"][..]].iter().enumerate() {
+            let cfgx = Cfg::new(opts);
+            for (k, chunk) in addrs.chunks(64).enumerate() {
+                if !ctx.mine((ci * 1000 + k) as u64) {
+                    continue;
+                }
+                for first_is_df11 in [true, false] {
+                    let vecs: Vec<Vector> = chunk
+                        .iter()
+                        .map(|&a| {
+                            let mut lines: Vec<Vec<u8>> = vec![];
+                            if first_is_df11 {
+                                lines.push(frames::df11(5, a, 0).hex().into_bytes());
+                            }
+                            lines.extend(later(a).iter().map(|f| f.hex().into_bytes()));
+                            Vector { addr: a, lines }
+                        })
+                        .collect();
+                    let obs = run_vectors(&cfgx, &vecs);
+                    for (a, o) in chunk.iter().zip(obs.iter()) {
+                        ctx.eval();
+                        ctx.count("reg-stable-under-later-frames");
+                        let want = lk.code(*a);
+                        let got = o.row().map(|s| s.reg.clone());
+                        if got.as_deref() != Some(want) {
+                            ctx.violation(
+                                &format!("C17/later-frames/{}", cfgx.label()),
+                                &format!("addr={a:06X}/{}", if first_is_df11 { "DF11 first" } else { "DF4 first" }),
+                                || format!("address {a:06X} under [{}]: expected {want} after frames of every format, row shows {got:?}", cfgx.label()),
+                                || json!({"kind": "later", "addr": a, "cfg": cfgx.opts, "df11": first_is_df11}),
+                            );
+                        }
+                    }
+                }
+            }
+        }
+    }
     // (b) reader seam
     let cfg = Cfg::new(&[]);
     let addrs: Vec<u32> = seam_addresses(&lk, ctx.tier.thorough()).into_iter().enumerate().filter(|(i, _)| ctx.mine(*i as u64)).map(|(_, a)| a).collect();
@@ -182,6 +242,26 @@ fn replay(ctx: &mut Ctx, case: &Value) {
             crate::run::say(&format!("line {}: expected {want}, observed {got:?}", frames::df11(5, a, 0).hex()));
             if got.as_deref() != Some(want) {
                 ctx.violation("C17/reader", &format!("addr={a:06X}"), || format!("expected {want}, got {got:?}"), || case.clone());
+            }
+        }
+        Some("later") => {
+            let opts: Vec<String> = case.get("cfg").and_then(|c| c.as_array()).map(|a| a.iter().filter_map(|x| x.as_str().map(String::from)).collect()).unwrap_or_default();
+            let o: Vec<&str> = opts.iter().map(|s| s.as_str()).collect();
+            let cfg = Cfg::new(&o);
+            let mut lines: Vec<Vec<u8>> = vec![];
+            if case.get("df11").and_then(|x| x.as_bool()).unwrap_or(true) {
+                lines.push(frames::df11(5, a, 0).hex().into_bytes());
+            }
+            lines.push(frames::df4(a, frames::ac13_for_alt(31000)).hex().into_bytes());
+            lines.push(frames::df17(5, a, frames::me_ident(4, 3, frames::callsign_codes("REG"))).hex().into_bytes());
+            for cf in 0..8 {
+                lines.push(frames::df18(cf, a, frames::me_ident(2, 1, frames::callsign_codes("TIS"))).hex().into_bytes());
+            }
+            let obs = run_vectors(&cfg, &[Vector { addr: a, lines }]);
+            let got = obs[0].row().map(|s| s.reg.clone());
+            crate::run::say(&format!("address {a:06X} under [{}] after DF4, DF17, DF18 (CF 0..7): expected {want}, observed {got:?}", cfg.label()));
+            if got.as_deref() != Some(want) {
+                ctx.violation("C17/later-frames", &format!("addr={a:06X}"), || format!("expected {want}, got {got:?}"), || case.clone());
             }
         }
         _ => ctx.machinery("unknown replay case kind"),
